@@ -4,6 +4,7 @@ by the runner.  `check(ctx, pid)` applies the decision rule of DESIGN.md §2."""
 from __future__ import annotations
 
 import gen_handlers as g
+import scenarios as sc
 import oracles as o
 from common import Rng
 from framework import Ctx, decide, lean_stage
@@ -41,7 +42,7 @@ def link_clean(rng: Rng, oracle, **force):
 
 
 def recov_cfg(rng: Rng, k: int) -> Cfg:
-    c = rand_cfg(rng, mode="A", put_mode="-")
+    c = rand_cfg(rng, mode="A", put_mode="-", metadata_only=False)
     lim = k + 1 + rng.randrange(0, 2)
     c.ack = f"{c.ack.split('/')[0]}/{lim}"
     c.nak = f"{c.nak.split('/')[0]}/{lim + 1}"      # NAK limit is compared with == after counter+1
@@ -70,6 +71,18 @@ def dest_any(rng: Rng, oracle, **kw):
     s = g.dest_session(rng, cfg=c, **kw)
     tr = Trace.of_session(s)
     return s, oracle(tr, c, None), c, {}
+
+
+def dest_honest(rng: Rng):
+    """destination fed by a sender whose EOF is truthful; null / modular checksum only in acknowledged
+    mode with loss, duplication and reordering of grid tiles (the quantifier of C01)"""
+    c = rand_cfg(rng)
+    weak = c.cks in (0, 15)
+    if weak:
+        c.mode, c.put_mode = "A", "-"
+    s = g.dest_session(rng, cfg=c, honest=True, n_tx=1, grid_only=weak)
+    tr = Trace.of_session(s)
+    return s, o.o_C01(tr, c), c, {}
 
 
 def dest_grid_acked(rng: Rng, oracle):
@@ -131,9 +144,11 @@ def c10_sig(tr: Trace, c, r):
 
 PLANS = {
     "C01": [("link-faulty", 900, lambda rng: link_faulty(rng, lambda tr, c, r: o.o_C01(tr, c))),
-            ("dest-honest-sender", 500, lambda rng: dest_any(rng, oc(o.o_C01), honest=True, n_tx=1))],
+            ("dest-honest-sender", 500, lambda rng: dest_honest(rng))],
     "C02": [("link-fault-free", 1500, lambda rng: link_clean(rng, o.o_C02))],
     "C03": [("link-recovery", 900, lambda rng: link_recovery(rng, o.o_C03))],
+    "C04": [("source-silent-peer", 700, sc.c04_source), ("dest-silent-peer", 900, sc.c04_dest)],
+    "C13": [("dest-eof-overtakes-data", 1200, sc.c13_dest), ("source-closure-check-timer", 400, sc.c13_source)],
     "C05": [("dest-arbitrary", 900, lambda rng: dest_any(rng, ot(o.o_C05), fault_p=0.3)),
             ("link-faulty", 400, lambda rng: link_faulty(rng, lambda tr, c, r: o.o_C05(tr)))],
     "C06": [("dest-grid-acked", 1500, lambda rng: dest_grid_acked(rng, oc(o.o_C06)))],
